@@ -340,119 +340,187 @@ func daYunForm(c *Ctx, fn *ssa.Function, v ssa.Value, names map[ssa.Value]string
 
 func r12_4(c *Ctx, r *Report) {
 	const rule = "R12.4"
-	r.rule(rule, "Pillar stepping. Great fortunes add the index to the exact month pillar's cycle position when forward and subtract it otherwise, minor fortunes do the same from the hour pillar by age; annual fortunes start from the exact year pillar of the birth Lichun; monthly fortunes use the five-tigers offsets {甲己:2, 乙庚:4, 丙辛:6, 丁壬:8, 戊癸:0} with the month branch starting at 寅.")
-	for _, t := range []struct{ fn, fwdField string }{{"calendar.(*DaYun).GetGanZhi", "Yun.forward"}, {"calendar.(*XiaoYun).GetGanZhi", "XiaoYun.forward"}} {
-		fn := c.Fn(r, rule, t.fn)
-		if fn == nil {
-			continue
-		}
-		okk := false
-		detail := "no phi(offset + step, offset - step) selected by the forward flag found"
-		for _, b := range fn.Blocks {
-			for _, ins := range b.Instrs {
-				phi, ok := ins.(*ssa.Phi)
-				if !ok || len(phi.Edges) != 2 {
-					continue
+	r.rule(rule, "Pillar stepping, by evaluation (E12; helpers, sibling accessors and the cycle-position search inline, search loops as tables over the iteration number; the pillar accessors of the birth Lunar are inputs). Great fortunes: the pillar index+k places after (forward) or before (backward) the exact month pillar, for every month pillar, index 0..12 and both directions (index 0 has no pillar). Minor fortunes: from the hour pillar by index+1 places, plus start age-1 when the period is not the one before the first fortune. Annual fortunes: from the exact year pillar of the Lichun of the birth year (not the birth Lunar's own) forward by index, plus start age-1 likewise. Monthly fortunes: stem by the five-tigers rule from the annual pillar's stem ({甲己:丙, 乙庚:戊, 丙辛:庚, 丁壬:壬, 戊癸:甲} for the first month), branch from 寅, for all sixty annual pillars and index 0..11.")
+	v := c.vocab(r, rule)
+	if v == nil {
+		return
+	}
+	type input struct {
+		pillar      int   // the pillar the stepping starts from
+		index       int64 // the object's own index
+		forward     bool
+		period, age int64 // the enclosing great fortune's index and start age
+	}
+	run := func(fn *ssa.Function, in input) (interface{}, string) {
+		recv := ssa.Value(fn.Params[0])
+		var leaf leafX
+		leaf = func(fr *evalFrame, x ssa.Value) (interface{}, bool) {
+			if rc, f, ok := getterField(c, x); ok {
+				_, o := fr.origin(rc)
+				own := o == recv
+				switch strings.SplitN(f, ".", 2)[1] {
+				case "index":
+					if own {
+						return in.index, true
+					}
+					if strings.HasPrefix(f, "DaYun.") {
+						return in.period, true
+					}
+				case "startAge":
+					if strings.HasPrefix(f, "DaYun.") && !own {
+						return in.age, true
+					}
+				case "forward":
+					return in.forward, true
+				case "lunar", "yun", "daYun", "liuNian":
+					return absPtr{strings.SplitN(f, ".", 2)[1], false}, true
 				}
-				cond, e0true, ok := phiSelector(phi)
-				if !ok {
-					continue
-				}
-				recvF := ""
-				if _, f, ok := getterField(c, cond); ok {
-					recvF = f
-				}
-				if recvF != t.fwdField {
-					continue
-				}
-				a, isA := phi.Edges[0].(*ssa.BinOp)
-				bb, isB := phi.Edges[1].(*ssa.BinOp)
-				if !isA || !isB || symExpr(c, a.X, nil, map[ssa.Value]string{}, 0) != symExpr(c, bb.X, nil, map[ssa.Value]string{}, 0) ||
-					symExpr(c, a.Y, nil, map[ssa.Value]string{}, 0) != symExpr(c, bb.Y, nil, map[ssa.Value]string{}, 0) {
-					continue
-				}
-				addFirst := a.Op == token.ADD && bb.Op == token.SUB
-				subFirst := a.Op == token.SUB && bb.Op == token.ADD
-				if (addFirst && e0true) || (subFirst && !e0true) {
-					okk = true
-					detail = "offset + step when forward, offset - step otherwise"
-				} else if addFirst || subFirst {
-					detail = "the step is ADDED when the fortune runs backward"
+				if _, isCall := x.(*ssa.Call); !isCall {
+					return nil, false
 				}
 			}
-		}
-		r.check(okk, rule, t.fn+" steps in the fortune direction", c.fnPos(fn), detail)
-	}
-	if fn := c.Fn(r, rule, "calendar.(*LiuYue).GetGanZhi"); fn != nil {
-		// extract stem -> offset from the if-chain
-		got := map[string]int64{}
-		var offPhi *ssa.Phi
-		for _, b := range fn.Blocks {
-			for _, ins := range b.Instrs {
-				// the merge of the if-chain: a phi of integer constants, one per group of stems
-				if phi, ok := ins.(*ssa.Phi); ok && len(phi.Edges) >= 4 {
-					all := true
-					for _, e := range phi.Edges {
-						if _, ok := constInt(e); !ok {
-							all = false
+			if lk, ok := x.(*ssa.Lookup); ok && !lk.CommaOk {
+				if k, isK := constString(lk.Index); isK {
+					if m, ok := evalWith(fr, lk.X, leaf); ok {
+						if p, isP := m.(absPtr); isP && p.tag == "term table" {
+							return absPtr{"moment of " + k, false}, true
 						}
 					}
-					if all {
-						offPhi = phi
-					}
 				}
+				return nil, false
 			}
+			call, ok := x.(*ssa.Call)
+			if !ok || call.Common().StaticCallee() == nil || len(call.Common().Args) == 0 {
+				return nil, false
+			}
+			callee := call.Common().StaticCallee()
+			if callee.Signature.Recv() == nil {
+				return nil, false
+			}
+			rt := structName(callee.Signature.Recv().Type())
+			if rt != "Lunar" && rt != "Solar" && rt != "JieQi" && rt != "LiuNian" {
+				return nil, false
+			}
+			rv, ok := evalWith(fr, call.Common().Args[0], leaf)
+			who, isP := rv.(absPtr)
+			if !ok || !isP {
+				return nil, false
+			}
+			switch {
+			case rt == "LiuNian" && callee.Name() == "GetGanZhi" && who.tag == "liuNian":
+				return v.jiaZi[in.pillar], true
+			case rt == "LiuNian":
+				return nil, false
+			case callee.Name() == "GetJieQiTable":
+				return absPtr{"term table", false}, true
+			case callee.Name() == "GetLunar" || callee.Name() == "GetSolar":
+				return absPtr{"lunar of " + strings.TrimPrefix(who.tag, "moment of "), false}, true
+			}
+			if m := pillarAccessor.FindStringSubmatch(callee.Name()); m != nil && m[2] == "InGanZhi" && m[3] == "" {
+				// the one pillar each kind of fortune starts from; any other pillar of any other Lunar is seven places off
+				want := map[string]string{"DaYun": "Month:Exact@lunar", "XiaoYun": "Time:@lunar", "LiuNian": "Year:Exact@lunar of 立春"}[structName(fn.Signature.Recv().Type())]
+				if m[1]+":"+m[4]+"@"+who.tag == want {
+					return v.jiaZi[in.pillar], true
+				}
+				return v.jiaZi[(in.pillar+7)%60], true
+			}
+			return nil, false
 		}
-		if offPhi != nil {
-			for i, e := range offPhi.Edges {
-				k, ok := constInt(e)
-				if !ok {
-					continue
-				}
-				pred := offPhi.Block().Preds[i]
-				// the stems tested on the way into pred: blocks whose If compares a constant stem with yearGan == 0
-				for _, b := range fn.Blocks {
-					iff, ok := b.Instrs[len(b.Instrs)-1].(*ssa.If)
-					if !ok {
-						continue
-					}
-					x, y, op, ok := stringCompareAtom(iff.Cond)
-					if !ok || op != token.EQL {
-						continue
-					}
-					stem, isK := constString(x)
-					if !isK {
-						stem, isK = constString(y)
-					}
-					if !isK {
-						continue
-					}
-					if b.Succs[0] == pred || (len(b.Succs[0].Instrs) == 1 && len(b.Succs[0].Succs) == 1 && b.Succs[0].Succs[0] == pred) {
-						got[stem] = k
-					}
-				}
-			}
+		ev := &evaluator{inline: inlineLibrary, leaf: leaf}
+		res, outcome := ev.run(fn, nil, nil, nil, nil)
+		if outcome != "return" || len(res) != 1 {
+			return nil, outcome + " " + ev.fail
 		}
-		gan := c.tabStrs(r, rule, "LunarUtil", "GAN")
-		var bad []string
-		for i := 1; i < len(gan) && len(gan) == 11; i++ {
-			want := int64(((i-1)%5 + 1) * 2 % 10)
-			g, ok := got[gan[i]]
-			if want == 0 {
-				if ok && g != 0 {
-					bad = append(bad, gan[i])
-				}
-				continue
-			}
-			if !ok || g != want {
-				bad = append(bad, fmt.Sprintf("%s:%d(want %d)", gan[i], g, want))
-			}
-		}
-		u := intConstUses(fn)
-		r.check(len(bad) == 0 && len(got) == 8 && countConst(u, token.REM, 10) == 1 && countConst(u, token.REM, 12) == 1 && countConst(u, token.ADD, 2) >= 1, rule,
-			"calendar.(*LiuYue).GetGanZhi follows the five-tigers rule", c.fnPos(fn), fmt.Sprintf("stem offsets read from the if-chain: %v; deviations %v", got, bad))
+		return res[0], ""
 	}
-	r.floor(rule, 3)
+	mod60 := func(k int64) int { return int(((k % 60) + 60) % 60) }
+	type spec struct {
+		fn     string
+		what   string
+		inputs func(yield func(in input, want string))
+	}
+	specs := []spec{
+		{"calendar.(*DaYun).GetGanZhi", "steps from the exact month pillar by its index in the fortune direction", func(yield func(in input, want string)) {
+			for p := 0; p < 60; p++ {
+				for i := int64(0); i <= 12; i++ {
+					for _, fw := range []bool{true, false} {
+						want := ""
+						if i >= 1 {
+							d := i
+							if !fw {
+								d = -i
+							}
+							want = v.jiaZi[mod60(int64(p)+d)]
+						}
+						yield(input{pillar: p, index: i, forward: fw}, want)
+					}
+				}
+			}
+		}},
+		{"calendar.(*XiaoYun).GetGanZhi", "steps from the hour pillar by index+1 (+ start age-1 inside a great fortune) in the fortune direction", func(yield func(in input, want string)) {
+			for p := 0; p < 60; p++ {
+				for i := int64(0); i <= 9; i++ {
+					for _, fw := range []bool{true, false} {
+						for _, pa := range [][2]int64{{0, 1}, {1, 4}, {3, 27}, {9, 88}} {
+							add := i + 1
+							if pa[0] > 0 {
+								add += pa[1] - 1
+							}
+							if !fw {
+								add = -add
+							}
+							yield(input{pillar: p, index: i, forward: fw, period: pa[0], age: pa[1]}, v.jiaZi[mod60(int64(p)+add)])
+						}
+					}
+				}
+			}
+		}},
+		{"calendar.(*LiuNian).GetGanZhi", "steps forward from the exact year pillar of the birth year's Lichun by index (+ start age-1 inside a great fortune)", func(yield func(in input, want string)) {
+			for p := 0; p < 60; p++ {
+				for i := int64(0); i <= 9; i++ {
+					for _, pa := range [][2]int64{{0, 1}, {1, 4}, {3, 27}, {9, 88}} {
+						add := i
+						if pa[0] > 0 {
+							add += pa[1] - 1
+						}
+						yield(input{pillar: p, index: i, period: pa[0], age: pa[1]}, v.jiaZi[mod60(int64(p)+add)])
+					}
+				}
+			}
+		}},
+		{"calendar.(*LiuYue).GetGanZhi", "follows the five-tigers rule from the annual pillar's stem, branches from 寅", func(yield func(in input, want string)) {
+			for p := 0; p < 60; p++ {
+				for i := int64(0); i <= 11; i++ {
+					first := ((p%10)%5*2 + 2) % 10 // stem of the first month: 甲己 -> 丙
+					yield(input{pillar: p, index: i}, v.stems[(first+int(i))%10]+v.branches[(2+int(i))%12])
+				}
+			}
+		}},
+	}
+	for _, sp := range specs {
+		fn := c.Fn(r, rule, sp.fn)
+		if fn == nil || len(fn.Params) != 1 {
+			continue
+		}
+		var bad []string
+		n := 0
+		sp.inputs(func(in input, want string) {
+			n++
+			if len(bad) > 3 {
+				return
+			}
+			got, problem := run(fn, in)
+			if problem != "" {
+				bad = append(bad, "not followed: "+problem)
+				return
+			}
+			if got != interface{}(want) {
+				bad = append(bad, fmt.Sprintf("from %s, index %d, forward %v, period %d starting at age %d: %v, expected %q", v.jiaZi[in.pillar], in.index, in.forward, in.period, in.age, got, want))
+			}
+		})
+		r.check(len(bad) == 0 && n > 0, rule, sp.fn+" "+sp.what, c.fnPos(fn), fmt.Sprintf("%d cases; deviations: %v", n, headList(dedupe(bad), 3)))
+	}
+	r.floor(rule, 4)
 }
 
 func r12_5(c *Ctx, r *Report) {
